@@ -274,7 +274,15 @@ func (a *Atom) ArgSig() string {
 	}
 	_ = at
 	sort.Strings(parts)
-	return strings.Join(parts, " ; ")
+	out := strings.Join(parts, " ; ")
+	// the conditions under which a (non-MUST) check runs are part of what it checks: nesting it under a
+	// further condition (a cache hit, a mode flag) changes the shape
+	if a.Leaf != nil && !a.Must {
+		if cc := u.condContext(a.Leaf); cc != "" {
+			out += " ?" + cc
+		}
+	}
+	return out
 }
 
 // ---------- G8: loop-carried flags ----------
@@ -392,7 +400,7 @@ func loopExitsAfter(loop ast.Node, def ast.Node) bool {
 // condContext renders the chain of if-conditions (outermost first) under which node n executes,
 // up to the nearest enclosing loop or literal.
 func (u *Unit) condContext(n ast.Node) string {
-	ifs := u.enclosingIfs(n)
+	ifs := u.enclosingIfsOpt(n, false)
 	var parts []string
 	for i := len(ifs) - 1; i >= 0; i-- {
 		s := ifs[i]
